@@ -322,6 +322,11 @@ def currently_exiting_context(frame: types.FrameType) -> Optional[ExitingContext
             while code[offs] == op["CACHE"] and offs >= 2:
                 offs -= 2
             is_async = True
+        else:
+            # If the frame is running (not suspended), lasti might rest
+            # on an inline CACHE entry of the SEND (3.12+)
+            while code[offs] == op["CACHE"] and offs >= 2:
+                offs -= 2
         if code[offs] == op["SEND"]:
             offs -= 2
             is_async = True
